@@ -818,6 +818,13 @@ func TestVerif_C01_e2e(t *testing.T) {
 						s.Count("edit:" + f)
 					}
 					em, eruri, elines, ebody, _ := c01Expected(tc.edited)
+					if pathPart, rest, _ := strings.Cut(eruri, "?"); tc.useBase && pathPart == "//" {
+						// "//" alone collapses to "/" (see below: empty-segments-collapsed)
+						eruri = "/"
+						if rest != "" {
+							eruri += "?" + rest
+						}
+					}
 					b = fmt.Sprintf("%s %s\n%s\nbody %s", em, eruri, strings.Join(elines, "\n"), c01Blob(ebody))
 					what = "is not the request described after the retry hook's edit (" + tc.edit + "); described:\n" + b + "\narrived:"
 				}
